@@ -296,6 +296,8 @@ class SBytes:
         if name == "iso8859-1" and errors == "strict":
             # latin-1 decodes every byte to the code point of the same value
             return mkstr([x if isinstance(x, int) else z3.ZeroExt(CPW - 8, item_bv(x)) for x in self.items])
+        if name == "utf-8" and errors == "strict":
+            return self._decode_utf8()
         if name != "cp1252" or errors not in ("strict", "surrogateescape"):
             raise Unsupported(f"SBytes.decode({encoding!r}, {errors!r})")
         esc = errors == "surrogateescape"  # PEP 383: an undecodable byte b becomes U+DC00+b
@@ -316,6 +318,53 @@ class SBytes:
                     continue
                 raise UnicodeDecodeError("charmap", b"?", 0, 1, f"character maps to <undefined> (symbolic byte {i})")
             out.append(z3.simplify(dec_e(b)))
+        return mkstr(out)
+
+    def _decode_utf8(self):
+        """Strict UTF-8: the class of every lead byte (and the well-formedness of its
+        continuation bytes) is decided symbol by symbol (forks)."""
+        items = [x if isinstance(x, int) else item_bv(x) for x in self.items]
+
+        def inr(b, lo, hi):
+            if isinstance(b, int):
+                return lo <= b <= hi
+            return branch(z3.And(z3.UGE(b, lo), z3.ULE(b, hi)))
+
+        def wide(b):
+            return b if isinstance(b, int) else z3.ZeroExt(CPW - 8, b)
+
+        def bad(i):
+            return UnicodeDecodeError("utf-8", b"?", i, i + 1, f"invalid byte sequence (position {i})")
+
+        out = []
+        i, n = 0, len(items)
+        while i < n:
+            b0 = items[i]
+            if inr(b0, 0x00, 0x7F):
+                out.append(wide(b0))
+                i += 1
+                continue
+            if inr(b0, 0xC2, 0xDF):
+                need, lo2, hi2, mask = 1, 0x80, 0xBF, 0x1F
+            elif inr(b0, 0xE0, 0xEF):
+                need, mask = 2, 0x0F
+                lo2, hi2 = (0xA0, 0xBF) if inr(b0, 0xE0, 0xE0) else ((0x80, 0x9F) if inr(b0, 0xED, 0xED) else (0x80, 0xBF))
+            elif inr(b0, 0xF0, 0xF4):
+                need, mask = 3, 0x07
+                lo2, hi2 = (0x90, 0xBF) if inr(b0, 0xF0, 0xF0) else ((0x80, 0x8F) if inr(b0, 0xF4, 0xF4) else (0x80, 0xBF))
+            else:
+                raise bad(i)
+            if i + need >= n:
+                raise bad(i)  # truncated sequence
+            cp = wide(b0) & mask
+            for k in range(1, need + 1):
+                bk = items[i + k]
+                lo, hi = (lo2, hi2) if k == 1 else (0x80, 0xBF)
+                if not inr(bk, lo, hi):
+                    raise bad(i)
+                cp = (cp << 6) | (wide(bk) & 0x3F)
+            out.append(cp if isinstance(cp, int) else z3.simplify(cp))
+            i += need + 1
         return mkstr(out)
 
     def ljust(self, width, fill=b"\x00"):
